@@ -63,34 +63,47 @@ where
       let s_complete = s.clone();
       let s_replayed = s.clone();
 
-      *sbsc.write().unwrap() = Some(
-        utils::ready_set_go(
-          move || {
-            // block until emitted for replay
-            let items = &items.read().unwrap();
-            let was_error = &*was_error.read().unwrap();
-            let was_completed = &*was_completed.read().unwrap();
-            items.iter().for_each(|x| {
-              s.next(x.clone());
-            });
-            if let Some(err) = &*was_error {
-              s.error(err.clone());
-              return;
-            } else if *was_completed {
-              s.complete();
-              return;
-            }
-          },
-          subject.observable(),
-        )
-        .subscribe(
-          move |x| s_next.next(x),
-          move |e| s_error.error(e),
-          move || {
-            s_complete.complete();
-          },
-        ),
+      // the registration with the live subject can be cancelled through
+      // `sbsc` from the moment it exists: a subscriber that ends while it is
+      // handed the history, or while its arrival connects a synchronous source
+      // (replay()), leaves the live subject at once
+      let forward = Observer::new(
+        move |x| s_next.next(x),
+        move |e| s_error.error(e),
+        move || {
+          s_complete.complete();
+        },
       );
+      {
+        let unsub_forward = forward.clone();
+        let issub_forward = forward.clone();
+        *sbsc.write().unwrap() = Some(Subscription::new(
+          move || {
+            unsub_forward.unsubscribe();
+          },
+          move || issub_forward.is_subscribed(),
+        ));
+      }
+      utils::ready_set_go(
+        move || {
+          // block until emitted for replay
+          let items = &items.read().unwrap();
+          let was_error = &*was_error.read().unwrap();
+          let was_completed = &*was_completed.read().unwrap();
+          items.iter().for_each(|x| {
+            s.next(x.clone());
+          });
+          if let Some(err) = &*was_error {
+            s.error(err.clone());
+            return;
+          } else if *was_completed {
+            s.complete();
+            return;
+          }
+        },
+        subject.observable(),
+      )
+      .inner_subscribe(forward);
       // the replay may already have handed over the stored terminal: the
       // registration with the live subject is then of no use any more
       if !s_replayed.is_subscribed() {
